@@ -103,11 +103,17 @@ package encoder
 //@   ensures base(*buf) == old(base(*buf)) || fresh(*buf)
 //@   ensures (result == nil) == encOK(val, opts)
 
-//@ func HTMLEscape props C06,C20
+// HTMLEscape(dst, src) = dst ++ htmlSpec(src): the prefix is preserved, only the spare
+// capacity of dst (or a fresh array) is written, src must not share dst's array.
+//@ func HTMLEscape props C05,C06,C20
+//@   requires (base(dst) != base(src) || base(src) == 0)
 //@   modifies dst[_]
 //@   ensures base(result) == base(dst) || fresh(result)
 //@   ensures base(result) != 0
-//@   ensures len(dst) == 0 ==> txt(result) == alg.htmlSpec(txt(src))
+//@   ensures len(result) >= len(dst)
+//@   ensures forall j int :: (0 <= j && j < len(dst)) ==> result[j] == old(dst[j])
+//@   ensures subtxt(result, len(dst), len(result) - len(dst)) == alg.htmlSpec(old(txt(src)))
+//@   ensures len(dst) == 0 ==> txt(result) == alg.htmlSpec(old(txt(src)))
 
 // The post-passes (C18, C03): HTML escaping iff EscapeHTML, then - on the escaped
 // text - replacement of invalid UTF-8 iff ValidateString and the text is invalid.
